@@ -670,6 +670,19 @@ def classify_callee(F, e: Event) -> Tuple[str, str]:
             if r_[0] == 'ext':
                 return ('forbidden', r_[1]) if r_[1].startswith(TB.FORBIDDEN_EXT_PREFIXES) else (
                     ('pure', r_[1]) if r_[1].startswith(TB.PURE_EXT_PREFIXES) else ('unknown', 'library call %s' % r_[1]))
+    if f[:2] == ('ref', 'builtin') and f[2] in ('setattr', 'getattr', 'hasattr') and len(e.args or ()) >= 2 and e.fn in F.functions \
+            and F.functions[e.fn].cls and F.functions[e.fn].node.args.args:
+        # an object of the package working on what it owns: setattr(self.owner, self.attr, seconds) in a timer's __exit__.  Both the
+        # target and the attribute name come from the object's own fields (filled where it is built), nothing from a program
+        sp_ = ('param', F.functions[e.fn].node.args.args[0].arg)
+        a_ = freeze(e.args)
+        def own_(t):
+            while isinstance(t, tuple) and t and t[0] in ('attr',):
+                t = t[1]
+            return t == sp_
+        if own_(a_[0]) and (own_(a_[1]) or (isinstance(a_[1], tuple) and a_[1][:1] == ('const',)) or (
+                isinstance(a_[1], tuple) and a_[1][:1] == ('fstr',) and all(own_(x) or (isinstance(x, tuple) and x[:1] == ('const',)) for x in a_[1][1:]))):
+            return ('package', 'attribute of an object the method owns (%s on self.<field>)' % f[2])
     if f[0] == 'ref':
         if f[1] == 'builtin':
             if f[2] == 'type' and len(e.args or ()) == 1 and not (e.kwargs or ()):
@@ -859,6 +872,20 @@ def _r4(chk: Check, R4: str) -> None:
                     continue            # constant attribute names on every path: plain attribute stores
             if isinstance(n, ast.Call) and isinstance(n.func, ast.Name) and n.func.id == 'type' and len(n.args) == 1 and not n.keywords:
                 continue            # one-argument type(x): inspection only
+            if isinstance(n, ast.Call) and isinstance(n.func, ast.Name) and n.func.id in ('setattr', 'getattr', 'hasattr') and len(n.args) >= 2 \
+                    and fi.cls and fi.node.args.args:
+                sp_ = fi.node.args.args[0].arg
+
+                def own_(x):
+                    while isinstance(x, ast.Attribute):
+                        x = x.value
+                    return isinstance(x, ast.Name) and x.id == sp_
+                a1_ = n.args[1]
+                name_ok_ = own_(a1_) and isinstance(a1_, ast.Attribute) or isinstance(a1_, ast.Constant) or (
+                    isinstance(a1_, ast.JoinedStr) and all(isinstance(v_, ast.Constant) or (isinstance(v_, ast.FormattedValue) and own_(v_.value)
+                                                                                            and isinstance(v_.value, ast.Attribute)) for v_ in a1_.values))
+                if isinstance(n.args[0], ast.Attribute) and own_(n.args[0]) and name_ok_:
+                    continue            # an object of the package working on what it owns (a timer storing into its owner)
             if isinstance(n, ast.Call) and isinstance(n.func, ast.Name) and n.func.id in TB.FORBIDDEN_BUILTINS \
                     and F.resolve_name(fi.module, n.func.id)[0] == 'builtin' and n.func.id != 'super':
                 forbidden.setdefault('`%s`' % norm(n), (n.lineno, 'builtin %s' % n.func.id))
